@@ -238,6 +238,12 @@ def deleteNodesFrom (nodes : List (Bytes × Bytes)) (version : Int) : Nat → By
           | _, _ => none
         sub.map fun l => if n.version ≥ version then l ++ [hash] else l
 
+/-- Recursion bound for a traversal starting at `root`: the stored height of that node + 1. -/
+def nodeFuel (nodes : List (Bytes × Bytes)) (root : Bytes) : Nat :=
+  (match aget root nodes with
+    | none => 0
+    | some bz => match makeNode bz with | none => 0 | some n => n.height.toNat) + 1
+
 /-- `nodeDB.DeleteVersionsFrom(version)` followed by `ndb.Commit()`: one atomic batch. -/
 def deleteVersionsFrom (t : MTree) (version : Int) : Option MTree :=
   let latest := t.latest
@@ -247,9 +253,7 @@ def deleteVersionsFrom (t : MTree) (version : Int) : Option MTree :=
     match aget latest t.db.roots with
     | none => none
     | some root =>
-      let fuel := match aget root t.db.nodes with
-        | none => 1
-        | some bz => match makeNode bz with | none => 1 | some n => n.height.toNat + 1
+      let fuel := nodeFuel t.db.nodes root
       match deleteNodesFrom t.db.nodes version fuel root with
       | none => none
       | some dead =>
